@@ -241,6 +241,36 @@ def method_set(tier):
         m["name"] = "%s%d" % (m["kind"].lower(), m["i"])
         methods.append(m)
     owners.append("TNs")
+    # ---- feature gating for backends with narrower profiles (the proc macro ignores these attributes)
+    def uses(t, pred):
+        if t is None:
+            return False
+        if pred(t):
+            return True
+        if isinstance(t, A.Struct):
+            return any(uses(ft, pred) for _, ft in t.fields)
+        if isinstance(t, (A.Opt, A.NullableRet)):
+            return uses(t.inner, pred)
+        if isinstance(t, A.Result):
+            return uses(t.ok, pred) or uses(t.err, pred)
+        return False
+    is_opt = lambda t: isinstance(t, A.Opt) and not isinstance(t.inner, A.Slice)
+    is_optslice = lambda t: isinstance(t, A.Opt) and isinstance(t.inner, A.Slice)
+    for st in structs:
+        if uses(st, is_opt):
+            st.attrs += "    #[diplomat::attr(not(supports = option), disable)]\n"
+    for m in methods:
+        a = m.get("attrs", "")
+        ts = list(m["params"]) + [m["ret"]]
+        if any(uses(t, is_opt) for t in ts):
+            a += "#[diplomat::attr(not(supports = option), disable)] "
+        if any(uses(t, is_optslice) for t in ts):
+            a += "#[diplomat::attr(any(dart, kotlin), disable)] "  # Option<&[T]> parameters crash these backends (reported by C15)
+        if m["kind"] == "CB":
+            a += "#[diplomat::attr(not(supports = callbacks), disable)] "
+        if any(isinstance(x, (A.Enum, A.Struct, A.OpaqueBox)) for x in ([m["ret"].err] if isinstance(m["ret"], A.Result) else [])):
+            a += "#[diplomat::attr(kotlin, disable)] "  # kotlin requires the `error` attribute on custom error types
+        m["attrs"] = a
     types = dict(enums=decl_enums, structs=structs, owners=owners,
                  owner_attrs={"TNs": '    #[diplomat::attr(cpp, namespace = "nsx")]\n    #[diplomat::attr(cpp, rename = "RenT")]\n'},
                  cpp_owner={"TNs": "nsx::RenT"})
@@ -443,7 +473,8 @@ incremental = false
 
 def build_crate(name, src, tag=""):
     """writes and builds the crate under BUILD/ffix-<name>; returns (crate_dir, staticlib path)"""
-    d = os.path.join(BUILD, "ffix-%s%s" % (name, tag))
+    from vlib.common import _repo_tag
+    d = os.path.join(BUILD, "ffix-%s%s%s" % (name, tag, _repo_tag()))
     os.makedirs(os.path.join(d, "src"), exist_ok=True)
     os.makedirs(os.path.join(d, ".cargo"), exist_ok=True)
 
